@@ -122,6 +122,22 @@ def run_model_checks(ctx, cfgs):
         return [f.result() for f in futs]          # InfraError propagates
 
 
+def action_coverage(res, actions=("NewGroup", "NewSubGroup", "UpdateDirect", "UpdateMerged")):
+    """-coverage 1 lines of actions that are operators with arguments carry a location suffix that lib/tlc.py's
+    regexp does not accept (`<NewGroup line .. of module QuotaTree (349 38 349 49)>: 12:18`): parse them here.
+    Vacuity guard: every action taken at least once."""
+    import re
+    cov = {}
+    for m in re.finditer(r'^<(\w+) line \d+, col \d+ to line \d+, col \d+ of module \w+(?: \([\d ]+\))?>: (\d+):(\d+)',
+                         res.out, re.M):
+        d, t = cov.get(m.group(1), (0, 0))
+        cov[m.group(1)] = (d + int(m.group(2)), t + int(m.group(3)))
+    missing = [a for a in actions if cov.get(a, (0, 0))[1] == 0]
+    if missing:
+        raise InfraError("vacuity guard: action(s) never taken in %s: %s" % (res.dir, ", ".join(missing)))
+    return {a: cov[a][1] for a in actions}
+
+
 def run_witness_searches(ctx, classes_paths):
     """For each (class, path): ask TLC to refute No<Class>; returns {(cls, path): ops or None}."""
     _locked_subdir(ctx)
